@@ -438,7 +438,7 @@ def run(ck):
     raw_verdicts = ck.run_coq("C01", "judge_alias", terms, shard=max(25, len(terms) // 16 + 1))
     verdicts, uf_code = [], {}
     ufj = {"originals_by_both_models": len(terms), "models_disagree": 0, "variants": 0, "verdicts": {},
-           "original_uf_verdicts": {}, "strict_run_differs": 0}
+           "original_uf_verdicts": {}, "strict_run_differs": 0, "strict_samples": []}
     for k, rv in enumerate(raw_verdicts):
         a, b, ds = decode_alias_verdict(rv, len(attached[k]))
         verdicts.append(a)
@@ -504,6 +504,9 @@ def run(ck):
             ufj["verdicts"][str(d)] = ufj["verdicts"].get(str(d), 0) + 1
             if d == 6:
                 ufj["strict_run_differs"] += 1
+                if len(ufj["strict_samples"]) < 3:
+                    ufj["strict_samples"].append({"original": [dc.clause_text(progs[i]["clauses"][k]) for k in sorted(ops)],
+                                                  "variant": [dc.clause_text(v["clauses"][k]) for k in sorted(ops)]})
         if "out" not in o:
             ck.violation({"property": "C01", "alias": True, "kind": "harness error/panic on an alias variant",
                           "program": progs[i], "variant": v, "variant_src": gc["src"], "impl": o})
@@ -654,6 +657,12 @@ def replay(ck, path):
             print("replay: alias variant vs original on Go: %s %s" % (verdict, detail))
             for g in (vo["out"].get("groups") or []):
                 print("replay:   variant configs %s: err=%r %s" % (g["configs"], g["err"], (g.get("msg") or "")[:200]))
+                try:
+                    d = ck.run_coq("C01", "judge_uf", [cq_case(rep["variant"], g)])[0]
+                    print("replay:   variant against the union-find model: verdict %d %s" % (d, VERDICT.get(d, "agree")))
+                    bad = bad or d in (1, 2, 3)
+                except ValueError as e:
+                    print("replay:   variant result outside the modelled fragment: %s" % e)
             bad = bad or verdict in ("differ", "stores-differ")
     if bad:
         print("VIOLATION property=C01 replay=%s" % path)
